@@ -91,7 +91,8 @@ def slice_events(darsia, rng, shape, table, tid):
     n = len(shape)
     ev = []
     h = [rng.choice([0.1, 0.5, 0.3 / 7]) for _ in range(n)]
-    img, o, arr = build_image(darsia, rng, shape, h, rng.choice(["default", "user", "user"]), "scalar", table)
+    # origins as users write them: floats, Python ints, integer arrays (a cut coordinate is a float in every case)
+    img, o, arr = build_image(darsia, rng, shape, h, rng.choice(["default", "user", "int", "intarr"]), "scalar", table)
     for c in range(n):
         name = "xyz"[c]
         for mode in ["sum", "average"]:
